@@ -69,6 +69,8 @@ def crashstub(nruns=24, kills_per_run=6, seed=DEFAULT_SEED):
     t0 = time.time()
     for i in range(nruns):
         run = c.gen(seed, i, "quick")
+        if len(run["steps"]) > 80:
+            continue
         run = dict(run, density=1.0)
         base = os.path.join(seams.SCRATCH_ROOT, "stub-%d" % i)
         # parent: in-process run with the stub, keep per-point dumps
